@@ -5,6 +5,7 @@
    threads and ALL programs (lists of calls per thread); MPMC additionally over every initial
    capacity >= 2 and every extensions setting. *)
 From OFGA Require Import Conc.FifoSpec Conc.Mpmc Conc.MpmcInv Conc.MpmcProofs Conc.FifoSpecProofs.
+From OFGA Require Import Conc.MpmcWakeup.
 From OFGA Require Import Conc.Mpsc Conc.MpscProofs.
 
 (* ---- MPMC ---- *)
@@ -66,6 +67,14 @@ Print Assumptions mpmc_lost_wakeup_refuted.
 Theorem mpmc_no_lost_wakeup_full_statement_is_false : ~ mpmc_no_lost_wakeup_statement.
 Proof. exact mpmc_no_lost_wakeup_statement_false. Qed.
 Print Assumptions mpmc_no_lost_wakeup_full_statement_is_false.
+
+(* what does hold: with at most one receiving thread (multi_receiver progs = false -- one
+   goroutine per QueueMedium calls Recv in the pipeline) no wake-up is lost *)
+Theorem mpmc_no_lost_wakeup_partial : forall c e progs sched r, 2 <= c ->
+  multi_receiver progs = false ->
+  lost_wakeup_state (run (init c e progs) sched) r = false.
+Proof. exact mpmc_no_lost_wakeup_partial_lemma. Qed.
+Print Assumptions mpmc_no_lost_wakeup_partial.
 
 (* ---- MPSC ---- *)
 
@@ -139,6 +148,16 @@ Example mpmc_nonvacuous_wrap :
   map res (thr s) = [[RSend 1%N true; RSend 2%N true; RSend 3%N true; RSend 4%N true];
                      [RRecv (Some 1%N); RRecv (Some 2%N); RRecv (Some 3%N); RRecv (Some 4%N)]]
   /\ Mpmc.head (g s) = 4 /\ Mpmc.tail (g s) = 4.
+Proof. vm_compute. repeat split. Qed.
+
+(* MPMC, single receiver: the receiver parks (5 steps), two sends complete, the receiver is woken
+   by the token and takes both items; the hypothesis of the partial theorem is satisfiable *)
+Example mpmc_nonvacuous_single_receiver :
+  let progs := [[ORecv; ORecv]; [OSend 7%N]; [OSend 8%N]] in
+  multi_receiver progs = false
+  /\ tpc (nth 0 (thr (run (init 2 (Some 0) progs) (repeat 0 5))) (init_thread [])) = R_park
+  /\ map res (thr (run (init 2 (Some 0) progs) (repeat 0 5 ++ repeat 1 10 ++ repeat 2 10 ++ repeat 0 40)))
+     = [[RRecv (Some 7%N); RRecv (Some 8%N)]; [RSend 7%N true]; [RSend 8%N true]].
 Proof. vm_compute. repeat split. Qed.
 
 (* MPSC: two producers, consumer parks first, close, drain *)
